@@ -27,6 +27,10 @@
 (*     consequently a line whose name comes out of an argument VALUE is    *)
 (*     never accepted (count 0), and the total number of field lines is    *)
 (*     bounded by  #calls + #defaults;                                     *)
+(*   - fields that are single-valued on the wire (Content-Length, Transfer-Encoding, Host, Server, Date,    *)
+(*     Content-Type, User-Agent, Content-Encoding) appear at most once whatever mix of generic and          *)
+(*     dedicated setters the program used, never Content-Length together with Transfer-Encoding, never two  *)
+(*     `Connection: close` lines or close together with keep-alive (SingleValuedOK);                        *)
 (*   - nothing follows the empty line except the body framing the case     *)
 (*     fixes (no body, or the chunked one-byte body "B" followed by the    *)
 (*     trailer block, which is checked the same way against TNames).       *)
@@ -97,7 +101,8 @@ BHostV             == <<101, 120, 97, 109, 112, 108, 101, 46, 99, 111, 109>>
 (* The entry-point table.  tgt: object the program runs on (req = protocol.Request, resp = protocol.Response,  *)
 (* ctx = app.RequestContext); cls: what the call may legitimately contribute (see HNames/TNames); fx: the      *)
 (* fixed field name of cls "fixed"; roles: one letter per string argument, "n" = name-like (field name,        *)
-(* trailer name, trailer-name list), "v" = value-like (everything that may only ever appear inside a value).   *)
+(* trailer name, trailer-name list), "v" = value-like (everything that may only ever appear inside a value),   *)
+(* "d" = a decimal integer (SetContentLength).                                                                  *)
 Ent(t, c, f, r) == [tgt |-> t, cls |-> c, fx |-> f, roles |-> r]
 NV == <<"n", "v">>
 EntryTable ==
@@ -122,6 +127,9 @@ EntryTable ==
   @@ ("Request.SetAuthSchemeToken"        :> Ent("req", "fixed", NAuthorization, <<"v", "v">>))
   @@ ("Request.SetBasicAuth"              :> Ent("req", "fixed", NAuthorization, <<"v", "v">>))
   @@ ("Request.URI.SetUsername"           :> Ent("req", "fixed", NAuthorization, <<"v">>))
+  @@ ("ReqHeader.SetContentLength"        :> Ent("req", "fixed", NContentLength, <<"d">>))
+  @@ ("ReqHeader.SetConnectionClose"      :> Ent("req", "fixed", NConnection, << >>))
+  @@ ("Request.SetConnectionClose"        :> Ent("req", "fixed", NConnection, << >>))
   @@ ("ReqHeader.SetCookie"               :> Ent("req", "reqcookie", << >>, <<"v", "v">>))
   @@ ("Request.SetCookie"                 :> Ent("req", "reqcookie", << >>, <<"v", "v">>))
   @@ ("Request.SetCookies"                :> Ent("req", "reqcookie", << >>, <<"v", "v">>))
@@ -145,6 +153,9 @@ EntryTable ==
   @@ ("RespHeader.SetContentEncodingBytes" :> Ent("resp", "fixed", NContentEncoding, <<"v">>))
   @@ ("RespHeader.SetServerBytes"         :> Ent("resp", "fixed", NServer, <<"v">>))
   @@ ("RespHeader.SetContentLengthBytes"  :> Ent("resp", "fixed", NContentLength, <<"v">>))
+  @@ ("RespHeader.SetContentLength"       :> Ent("resp", "fixed", NContentLength, <<"d">>))
+  @@ ("RespHeader.SetConnectionClose"     :> Ent("resp", "fixed", NConnection, << >>))
+  @@ ("Response.SetConnectionClose"       :> Ent("resp", "fixed", NConnection, << >>))
   @@ ("RespHeader.SetCookie"              :> Ent("resp", "respcookie", << >>, <<"v", "v", "v", "v">>))
   @@ ("RespHeader.SetCookieBytes"         :> Ent("resp", "respcookie", << >>, <<"v", "v", "v", "v">>))
   @@ ("RespHeader.ParseSetCookie"         :> Ent("resp", "respcookie", << >>, <<"v">>))
@@ -165,6 +176,7 @@ EntryTable ==
   @@ ("Ctx.SetContentTypeBytes"           :> Ent("ctx", "fixed", NContentType, <<"v">>))
   @@ ("Ctx.Data"                          :> Ent("ctx", "fixed", NContentType, <<"v">>))
   @@ ("Ctx.RespTrailer.Set"               :> Ent("ctx", "trailer", << >>, NV))
+  @@ ("Ctx.SetConnectionClose"            :> Ent("ctx", "fixed", NConnection, << >>))
 
 Entries == DOMAIN EntryTable
 Side(tgt) == IF tgt = "req" THEN "req" ELSE "resp"
@@ -213,7 +225,8 @@ ColonPos(l) == LET C == {i \in DOMAIN l : l[i] = COLON}
 \* a line parsed once: is it  token* ":" anything , and the canonical form of its name
 ParseField(l) == LET cp == ColonPos(l)
                  IN [ok |-> cp > 0 /\ \A i \in 1 .. cp - 1 : l[i] \in TChar,
-                     nm |-> IF cp > 0 THEN Canon(SubSeq(l, 1, cp - 1)) ELSE << >>]
+                     nm |-> IF cp > 0 THEN Canon(SubSeq(l, 1, cp - 1)) ELSE << >>,
+                     val |-> IF cp > 0 THEN SubSeq(l, cp + 1, Len(l)) ELSE << >>]
 
 StartLineOK(side, l) ==
     IF side = "req"
@@ -245,14 +258,53 @@ HAllow(prog) == Flatten([i \in DOMAIN prog |-> HNames(prog[i])])
 TAllow(prog) == Flatten([i \in DOMAIN prog |-> TNames(prog[i])])
 
 \* ls: the lines of one block (without the terminating empty line)
-BlockOK(ls, allow, dflt) ==
-    LET fl == [i \in DOMAIN ls |-> ParseField(ls[i])]
-        al == [j \in DOMAIN allow |-> Canon(allow[j])]
+Parsed(ls) == [i \in DOMAIN ls |-> ParseField(ls[i])]
+BlockOKF(ls, fl, allow, dflt) ==
+    LET al == [j \in DOMAIN allow |-> Canon(allow[j])]
         df == {Canon(d) : d \in dflt}
     IN /\ \A i \in DOMAIN ls : fl[i].ok
        /\ \A i \in DOMAIN ls :
              Cardinality({j \in DOMAIN ls : fl[j].nm = fl[i].nm})
                <= Cardinality({j \in DOMAIN al : al[j] = fl[i].nm}) + (IF fl[i].nm \in df THEN 1 ELSE 0)
+
+BlockOK(ls, allow, dflt) == BlockOKF(ls, Parsed(ls), allow, dflt)
+
+(* Fields that are single-valued on the wire.  A second line of such a name is an injected line whichever API  *)
+(* calls produced it (generic Set/Add and the dedicated setter in either order, or twice the same): the        *)
+(* framing fields, Host, and the fields the library stores in a dedicated slot.  Content-Length together with  *)
+(* Transfer-Encoding is the same hazard (two framings).  Connection may legitimately have several lines        *)
+(* (upgrade + close), but not two `close` lines and not `close` together with `keep-alive`.                     *)
+(* Exempt: a name the program wrote through the raw argument API (SetArgBytes/AddArgBytes), which by design    *)
+(* bypasses the dedicated stores -- it is what the parser uses to fill the header.                              *)
+UniqueNames(side) ==
+    IF side = "req" THEN {NContentLength, NTransferEncoding, NHost, NContentType, NUserAgent}
+    ELSE {NContentLength, NTransferEncoding, NServer, NDate, NContentType, NContentEncoding}
+RawKV == {"ReqHeader.SetArgBytes", "ReqHeader.AddArgBytes", "ReqHeader.SetArgBytesNoValue", "ReqHeader.AddArgBytesNoValue",
+          "RespHeader.SetArgBytes", "RespHeader.AddArgBytes", "RespHeader.SetArgBytesNoValue", "RespHeader.AddArgBytesNoValue"}
+RawNamed(prog) == {Canon(prog[i].a[1]) : i \in {j \in DOMAIN prog : prog[j].e \in RawKV}}
+BKeepAlive == <<107, 101, 101, 112, 45, 97, 108, 105, 118, 101>>
+BClose     == <<99, 108, 111, 115, 101>>
+\* the comma-separated tokens of a field value: lower case, without SP / HT
+Tokens(v) == LET low == [i \in DOMAIN v |-> Lower(v[i])]
+                 ps  == Pieces(low, COMMA)
+             IN {SelectSeq(ps[i], LAMBDA b : b # SP /\ b # 9) : i \in DOMAIN ps}
+SingleValuedOKF(ls, fl, prog, side) ==
+    LET raw  == RawNamed(prog)
+        N(c) == Cardinality({i \in DOMAIN ls : fl[i].nm = c})
+        cl   == Canon(NContentLength)
+        te   == Canon(NTransferEncoding)
+        co   == Canon(NConnection)
+        conn == {i \in DOMAIN ls : fl[i].nm = co}
+        nclose == Cardinality({i \in conn : BClose \in Tokens(fl[i].val)})
+        nkeep  == Cardinality({i \in conn : BKeepAlive \in Tokens(fl[i].val)})
+    IN /\ \A u \in UniqueNames(side) : Canon(u) \in raw \/ N(Canon(u)) <= 1
+       /\ (cl \in raw \/ te \in raw \/ ~(N(cl) >= 1 /\ N(te) >= 1))
+       /\ (co \in raw \/ (nclose <= 1 /\ ~(nclose >= 1 /\ nkeep >= 1)))
+
+\* the header block of a message: line obligations + single-valued fields, each line parsed once
+HeaderBlockOK(ls, prog, side) ==
+    LET fl == Parsed(ls)
+    IN BlockOKF(ls, fl, HAllow(prog), DefaultNames(side)) /\ SingleValuedOKF(ls, fl, prog, side)
 
 FirstEmpty(ls) == IF \E i \in DOMAIN ls : ls[i] = << >>
                   THEN CHOOSE i \in DOMAIN ls : ls[i] = << >> /\ \A j \in 1 .. i - 1 : ls[j] # << >>
@@ -274,11 +326,11 @@ MessageOK(obs, tgt, body, prog, bytes) ==
             [] obs = "header" ->
                  /\ e = n /\ n >= 2
                  /\ StartLineOK(side, ls[1])
-                 /\ BlockOK(SubSeq(ls, 2, n - 1), HAllow(prog), DefaultNames(side))
+                 /\ HeaderBlockOK(SubSeq(ls, 2, n - 1), prog, side)
             [] obs = "message" ->
                  /\ e >= 2
                  /\ StartLineOK(side, ls[1])
-                 /\ BlockOK(SubSeq(ls, 2, e - 1), HAllow(prog), DefaultNames(side))
+                 /\ HeaderBlockOK(SubSeq(ls, 2, e - 1), prog, side)
                  /\ IF body = "none" THEN e = n
                     ELSE /\ n >= e + 4
                          /\ SubSeq(ls, e + 1, e + 3) = BChunkLines
@@ -309,7 +361,9 @@ TrailerDecl(list) == [i \in DOMAIN Pieces(list, COMMA) |-> [n |-> Pieces(list, C
 ApplyH(s, c) ==
     CASE IsKV(c) /\ Canon(c.a[1]) = Canon(NTrailer) -> s
       [] IsKV(c) /\ side = "req" /\ Canon(c.a[1]) = Canon(NCookie) -> AddReqCookie(s, c.a[2])
-      [] Cls(c) = "kvset"      -> Append(Without(s, c.a[1]), Fld(c.a[1], c.a[2], FALSE))
+      [] IsKV(c) /\ Canon(c.a[1]) = Canon(NTransferEncoding) -> s          \* managed by the library
+      [] Cls(c) = "kvset" \/ (Cls(c) = "kvadd" /\ Canon(c.a[1]) \in {Canon(u) : u \in UniqueNames(side)})
+                               -> Append(Without(s, c.a[1]), Fld(c.a[1], c.a[2], FALSE))
       [] Cls(c) = "kvadd"      -> Append(s, Fld(c.a[1], c.a[2], FALSE))
       [] Cls(c) = "fixed"      -> Append(Without(s, EntryTable[c.e].fx), Fld(EntryTable[c.e].fx, Flatten(c.a), FALSE))
       [] Cls(c) = "reqcookie"  -> AddReqCookie(s, IF c.a[1] = << >> THEN c.a[2] ELSE c.a[1] \o <<EQ>> \o c.a[2])
@@ -330,10 +384,14 @@ FieldBytes(f) ==
       [] OTHER -> IF ValidName(f.n) THEN f.n \o BColonSp \o San(f.v) \o BCRLF ELSE << >>
 
 JoinNames(t) == Flatten([i \in DOMAIN t |-> IF i < Len(t) THEN t[i].n \o BCommaSp ELSE t[i].n])
+\* the default field (Host / Server) only if the program did not set it; no Content-Length next to chunked
+DfltName == IF side = "req" THEN NHost ELSE NServer
 HeaderBytes(msg) ==
     (IF side = "req" THEN BReqStart ELSE BRespStart) \o BCRLF
-    \o FieldBytes(Fld(IF side = "req" THEN NHost ELSE NServer, BHostV, FALSE))
-    \o Flatten([i \in DOMAIN store |-> FieldBytes(store[i])])
+    \o (IF \E i \in DOMAIN store : Canon(store[i].n) = Canon(DfltName) THEN << >>
+        ELSE FieldBytes(Fld(DfltName, BHostV, FALSE)))
+    \o Flatten([i \in DOMAIN store |-> IF msg /\ Canon(store[i].n) = Canon(NContentLength) THEN << >>
+                                        ELSE FieldBytes(store[i])])
     \o (IF tstore # << >> THEN FieldBytes(Fld(NTrailer, JoinNames(tstore), FALSE)) ELSE << >>)
     \o (IF msg THEN FieldBytes(Fld(NTransferEncoding, BTEChunked, FALSE)) ELSE << >>)
     \o BCRLF
